@@ -100,6 +100,17 @@ def linesNamed (batch : List (List Char)) (name : String) (ls : List ErrLine) : 
   ls.all fun l => l.kind == "record" && l.to == name &&
     FeedbackLine.attributedTo batch name.toList (l.raw.toList ++ ['\n'])
 
+/-- the runner's reading of a stderr line ("trim; split at the first `": "`") gives back this
+test case name (`c12Attributable`; the hypotheses of `feedback_line_attributed` on the name) -/
+def attributable (n : String) : Bool :=
+  ServerRunner.Spec.noSep n.toList && FeedbackLine.startsClean n.toList && FeedbackLine.oneLine n.toList &&
+  !n.toList.contains '\r'
+
+/-- for a name the runner's reading cannot carry only the server's side is judged: every line
+it writes for the request starts with the name and `": "` -/
+def linesStartWith (name : String) (ls : List ErrLine) : Bool :=
+  ls.all fun l => l.raw.startsWith (name ++ ": ")
+
 structure Obs where
   lines : List ErrLine := []
   called : Bool
@@ -141,7 +152,7 @@ def generalHolds (batch : List (List Char)) (earlier : List String) (r : Req) (i
   let name := testName r
   let fb := i.fb.map fbOfClass
   if !i.named then (false, "a message is not prefixed with the test case name") else
-  if !linesNamed batch name i.lines then
+  if !(if attributable name then linesNamed batch name i.lines else linesStartWith name i.lines) then
     (false, s!"a line of the server's stderr is not attributed to test case {name.quote} by the runner: {(i.lines.map (·.raw))}") else
   if name == "" then
     (!i.called && i.fb.isEmpty && i.error, "a request without test name must be rejected outright")
@@ -483,6 +494,44 @@ def handleStream (inp impl : Json) : Verdict :=
     | [] => { agree := agreeChecks && agreeReader, holds := true, model := model, cls := cls,
               nontrivial := ilines.any (fun ls => !ls.isEmpty) }
 
+/-! ### the reference client's feedback (op `clientfb`) -/
+
+open ConfModel.FeedbackStream in
+def handleClientFb (inp impl : Json) : Verdict :=
+  let cases := (arr (field inp "cases")).map fun c =>
+    (str (field c "name"), bool (field c "mismatch"), (arr (field c "fb")).map unrle)
+  let pairsOf := fun (j : Json) => (arr j).map fun p => match arr p with | [n, m] => (str n, unrle m) | _ => ("", "")
+  let sidebandI := pairsOf (field impl "sideband")
+  let merged := pairsOf (field impl "merged")
+  let hang := bool (field impl "hang")
+  let recs := clientRecords (cases.map fun (n, _, fb) => (n.toList, fb.map String.toList))
+  let agree := !hang && cases.all (fun (n, _, _) =>
+      ((sidebandI.find? (·.1 == n)).map (·.2)) == (sideband recs n.toList).map String.ofList) &&
+    sidebandI.all (fun p => cases.any (fun c => c.1 == p.1))
+  let model := toJson (cases.filterMap fun (n, _, _) => (sideband recs n.toList).map fun m => [n, toString m.length])
+  if hang then { agree := false, holds := false, model := model, why := "the batch did not end" } else
+  -- the feedback of a case is attributed to that case and to no other
+  let wrong := cases.filterMap fun (n, mismatch, fb) =>
+    let held := (sidebandI.find? (·.1 == n)).map (·.2)
+    let failure := (merged.find? (·.1 == n)).map (·.2)
+    match fb.getLast? with
+    | none =>
+      if held.isSome then some s!"test case {n.quote}: its response carried no feedback but the runner holds {((held.getD "").take 80).toString.quote} for it"
+      else if !mismatch && failure.isSome then some s!"test case {n.quote} passed without feedback but is reported as failed: {((failure.getD "").take 80).toString.quote}"
+      else none
+    | some last =>
+      if held != some last then
+        some s!"test case {n.quote}: the last feedback of its response is {(last.take 80).toString.quote} ({last.length} bytes), the runner holds {(held.map fun h => (h.take 80).toString)} for it"
+      else match failure with
+        | none => some s!"test case {n.quote} got feedback but is not reported as failed"
+        | some f =>
+          if (!mismatch && f == last) || (mismatch && f.startsWith (last ++ "; ")) then none
+          else some s!"test case {n.quote}: its failure after the merge does not carry its feedback: {(f.take 80).toString.quote}"
+  match wrong with
+  | w :: _ => { agree := agree, holds := false, model := model, why := w }
+  | [] => { agree := agree, holds := true, model := model, nontrivial := cases.any (fun c => !c.2.2.isEmpty),
+            cls := if cases.any (fun c => c.2.2.any (fun m => m.length > 65536)) then "message>64KiB" else "short" }
+
 def handle : Handler := fun op inp impl =>
   if !(isNull (field impl "panic")) then
     { agree := false, holds := false, why := "panic: " ++ str (field impl "panic") } else
@@ -540,7 +589,10 @@ def handle : Handler := fun op inp impl =>
       let v := variant (field inp "v")
       let name := str (field inp "name")
       let r := render e name a v
-      let o := checks 0 r
+      -- the chain as installed: the tracing handler around the checks (traced) or not; the body
+      -- of the request as rendered (a GET has none, or an empty one)
+      let w : BodyWrapper := if bool (field inp "traced") then tracingRead else noWrapper
+      let o := (serverChainW w 0 "" r (if a.method == .get then .eof else .nothing)).outcome
       match (arr impl).map obsOf with
       | [i] =>
         let fb := i.fb.map fbOfClass
@@ -571,8 +623,13 @@ def handle : Handler := fun op inp impl =>
       let pad := field inp "pad"
       let r : Req := if isNull pad then r1 else padReq r1 (str (field pad "kind")) (nat (field pad "n"))
       let reqs := List.replicate times r
-      let outs := serveChain path [] reqs
-      let obs := (arr impl).map realObsOf
+      let getBody := nat (field inp "getBody")
+      let probe : Probe := if a.method == .get then (if getBody == 1 then .nothing else .eof) else .nothing
+      let w : BodyWrapper := if bool (field inp "traced") then tracingRead else noWrapper
+      let outs := serveChainW w path [] (reqs.map fun q => (q, probe))
+      -- a GET that carries a body is refused by connect-go (415) after the checks have run: whether
+      -- the RPC then succeeds says nothing about the checks
+      let obs := (arr impl).map fun j => let o := realObsOf j; if getBody == 1 && o.err == "" then { o with ok := true } else o
       let batch := batchOf [name]
       let agree := outs.length == obs.length && (outs.zip obs).all (fun (o, i) => agreeReal batch o i)
       let model := toJson (outs.map fun o => outcomeJson o.outcome)
@@ -586,19 +643,22 @@ def handle : Handler := fun op inp impl =>
       let (g, gwhy) := serveHolds batch [] reqs (obs.map obsOfReal)
       -- (an expectation header made malformed on purpose is no expectation: judged by agree and by
       -- the general statements only)
+      -- a GET that does carry a body is not the request of a conformant client: whether that body
+      -- is reported is left to agree (the model reports it); everything else must still be exact
       let exact := (!isNull pad && str (field pad "kind") == "expect") ||
-        obs.all fun i => flagsExactly e a ((i.fb.map fbOfClass).filter (fun f => !notAnAspect f))
+        obs.all fun i => flagsExactly e a ((i.fb.map fbOfClass).filter (fun f => !notAnAspect f && !(getBody == 1 && f == .getBody)))
       let dev := mismatches e a
       { agree := agree, holds := g && exact, nontrivial := true, model := model,
         why := if !g then s!"{proc} over HTTP/{a.version.num}: " ++ gwhy else if !exact then
           s!"{proc} over HTTP/{a.version.num}: feedback {obs.map (·.fb)} does not name exactly the deviating aspects {reprStr dev}" else "",
-        cls := s!"{proc}/http{a.version.num}/" ++ (if name == "" then "no-name" else if !isNull pad then "long-feedback" else if !name.startsWith "Real/" then "odd-name" else if !isNull timeout then "timeout"
+        cls := s!"{proc}/http{a.version.num}/" ++ (if bool (field inp "traced") then "traced/" else "") ++ (if name == "" then "no-name" else if name.startsWith "Real/get-body" then s!"get-body-{getBody}" else if !isNull pad then "long-feedback" else if !name.startsWith "Real/" then "odd-name" else if !isNull timeout then "timeout"
           else if times > 1 then "repeat" else if nat (field inp "trailers") > 0 then "trailers"
           else if dev.isEmpty then "match" else "deviating") }
     | _, _ => bad "real: bad tuples"
   | "overlap" => handleOverlap inp impl
   | "realoverlap" => handleOverlap inp impl
   | "stream" => handleStream inp impl
+  | "clientfb" => handleClientFb inp impl
   | "render" =>
     match aspects (field inp "e"), aspects (field inp "a") with
     | some e, some a =>
